@@ -109,14 +109,20 @@ def build_info(le, cus):
     return bytes(info), bytes(abbrev), offsets
 
 
-def make_dwarfinfo(le, default_asz, sections):
-    """sections: dict name -> bytes or None for info, abbrev, loc, ranges, loclists, rnglists, addr"""
+LIST_SECTIONS = ('loc', 'ranges', 'loclists', 'rnglists')
+
+
+def make_dwarfinfo(le, default_asz, sections, opener=None, kinds=('bytesio', 'bytesio')):
+    """sections: dict name -> bytes or None for info, abbrev, loc, ranges, loclists, rnglists, addr.
+    opener(data, kind) gives the stream of a section (tools/lib/streams.py); kinds = (kind of the four list
+    sections, kind of .debug_info/.debug_abbrev/.debug_addr)."""
     from elftools.dwarf.dwarfinfo import DWARFInfo, DebugSectionDescriptor, DwarfConfig
     def d(name, key):
         b = sections.get(key)
         if b is None:
             return None
-        return DebugSectionDescriptor(stream=io.BytesIO(b), name=name, global_offset=0, size=len(b), address=0)
+        st = io.BytesIO(b) if opener is None else opener(b, kinds[0] if key in LIST_SECTIONS else kinds[1])
+        return DebugSectionDescriptor(stream=st, name=name, global_offset=0, size=len(b), address=0)
     return DWARFInfo(
         config=DwarfConfig(little_endian=le, machine_arch='x64', default_address_size=default_asz),
         debug_info_sec=d('.debug_info', 'info'), debug_aranges_sec=None,
